@@ -86,7 +86,7 @@ func genAcctWFaults(r *core.Rand, p *core.Plan) {
 	var out []core.Op
 	for _, op := range p.Ops {
 		switch op.K {
-		case "importdry2", "importacct", "newaddri", "newaddr", "newacct":
+		case "importdry2", "importacct", "newaddri", "newaddr", "newacct", "importkeyb":
 			if r.Chance(1, 3) {
 				kind := int64(r.Intn(3) / 2) // 0,0,1: mostly write failures
 				out = append(out, core.Op{K: "faultnext", A: []int64{kind, int64(r.Range(1, 30))}})
@@ -121,12 +121,16 @@ func genAcctW(r *core.Rand, p *core.Plan) {
 	}
 	lastVariant := int64(r.Intn(len(importVariants)))
 	for i := 0; i < n; i++ {
-		switch r.Weighted([]int{14, 14, 8, 16, 12, 6, 8, 6, 5, 6, 5, 4, 4}) {
+		switch r.Weighted([]int{14, 14, 8, 16, 12, 6, 8, 6, 5, 6, 5, 4, 4, 6}) {
 		case 12: // passphrase changes through the wallet: both in one request, or one; right or wrong old passphrase
 			p.Ops = append(p.Ops, core.Op{K: "wchpass", A: []int64{int64(r.Intn(5))}})
 			if r.Chance(1, 2) {
 				p.Ops = append(p.Ops, core.Op{K: "stop"}, core.Op{K: "start"})
 			}
+		case 13: // a single key imported with a block stamp below the birthday block
+			p.Ops = append(p.Ops, core.Op{K: "mine", A: []int64{int64(r.Range(1, 3)), 100, -1, 600, int64(r.Uint64() >> 1)}}, core.Op{K: "sync"},
+				core.Op{K: "wunlock"}, core.Op{K: "bdayblock"},
+				core.Op{K: "importkeyb", A: []int64{int64(r.Intn(3)), int64(r.Intn(8)), int64(r.Intn(2))}})
 		case 0: // preview
 			lastVariant = int64(r.Intn(len(importVariants)))
 			nprev := int64(r.Range(1, 4))
